@@ -393,6 +393,12 @@ def rewrite(draw, case, kinds, n_max=3):
                         alts = [(mi, x) for x in range(ti) if x != i['task'] or mi != i['mod']]
                         alts = [a for a in alts if a in tasks and a[0] == i['mod']
                                 and not any(j.get('mod') == a[0] and j.get('task') == a[1] for j in t['inputs'])]
+                        # a namesake in another group (x vs g:x) comes first: with equal parameters it even has the same
+                        # key, so only the input's NAME tells the two wirings apart
+                        cur = prog['modules'][i['mod']]['tasks'][i['task']]
+                        sib = [a for a in alts if prog['modules'][a[0]]['tasks'][a[1]]['name'] == cur['name']]
+                        if sib:
+                            alts = sib
                         if alts:
                             cands.append((mi, ti, ii, alts))
             if cands:
